@@ -19,15 +19,92 @@ def build_cases(tier, seed):
     return cases
 
 
+def interleaved_job(arg):
+    """Session A evaluates v0, another process B evaluates an edited v1 on the same store, then A (same
+    process, same store object) evaluates its unchanged v0 again: every path must serve v0's values again."""
+    import os
+    import pickle
+
+    from vp import gen
+    from vp.worker import run_segment
+
+    p0, store, idx = arg
+    rep = core.Report("C04")
+    rep.evaluations = 1
+    p1 = p0
+    for fid in gen.reach(p0, p0["entry"]):
+        p1, _ = gen.e_set_const(p1, fid, 7000)
+    f = p0["fns"][p0["entry"]]
+    ent = {"style": "eval", "module": gen.modname(p0, f["module"]), "func": f["name"], "args_src": "()"}
+    paths = sorted(gen.kept_nodes(p0))
+    case = {"interleaved": True, "program": p0, "store": store, "idx": idx}
+    with core.Scratch("vp_c04i_") as td:
+        root_a, root_b, sdir = os.path.join(td, "a"), os.path.join(td, "b"), os.path.join(td, "store")
+        for d in (root_a, root_b, sdir):
+            os.makedirs(d)
+        side = {"mode": "impl", "root": root_b, "accept": [p0["pkg"]], "store": {"kind": store, "dir": sdir},
+                "steps": [{"write": gen.render(p1), "how": "import", "modules": gen.import_order(p1), "entry": ent, "post_loads": paths}]}
+        seg = {"mode": "impl", "root": root_a, "accept": [p0["pkg"]], "store": {"kind": store, "dir": sdir},
+               "steps": [{"write": gen.render(p0), "how": "import", "modules": gen.import_order(p0), "entry": ent, "post_loads": paths},
+                         {"how": "none", "side": side, "entry": ent, "post_loads": paths}]}
+        a = core.fork_call(run_segment, seg, timeout=900)
+        ref = core.fork_call(run_segment, {"mode": "ref", "root": root_a, "accept": [], "steps": [{"write": gen.render(p0), "how": "import", "modules": gen.import_order(p0), "entry": ent}]}, timeout=300)
+        fresh = core.fork_call(run_segment, dict(seg, steps=[{"how": "none", "post_loads": paths}]), timeout=300)
+    if any(isinstance(x, core.JobFailed) for x in (a, ref, fresh)):
+        rep.inconclusive.append("interleaved worker failed: %r" % ([x for x in (a, ref, fresh) if isinstance(x, core.JobFailed)][:1],))
+        return rep
+    s1 = a["steps"][1]
+    if "side_error" in s1 or "side" not in s1 or s1["side"]["steps"][0].get("result", ("exc",))[0] != "ok":
+        rep.inconclusive.append("side process failed: %s" % (s1.get("side_error") or s1.get("side", {}).get("steps", [{}])[0].get("result"),))
+        return rep
+    model = dict((pth, pickle.loads(v)) for pth, v in ref["steps"][0]["kept"])
+    rr = ref["steps"][0]["result"]
+    for si in (0, 1):
+        r = a["steps"][si]["result"]
+        if r[0] != "ok" or rr[0] != "ok" or pickle.loads(r[1]) != pickle.loads(rr[1]):
+            rep.violate("interleaved sessions on %s: session A step %d returned %s" % (store, si, r[2][:100] if r[0] == "ok" else r[1:3]), case, mechanism="interleaved-wrong-value")
+            return rep
+    side_loads = s1["side"]["steps"][0]["loads"]
+    moved = [pth for pth in paths if side_loads[pth][0] == "ok" and pickle.loads(side_loads[pth][1]) != model.get(pth)]
+    rep.count("interleaved_paths_moved_by_other_process", len(moved))
+    for label, loads in (("session A", s1["loads"]), ("a fresh process", fresh["steps"][0]["loads"])):
+        for pth, val in model.items():
+            rep.count("path_loads_checked")
+            lv = loads.get(pth)
+            if lv is None or lv[0] != "ok" or pickle.loads(lv[1]) != val:
+                rep.violate("interleaved sessions on %s: after session A re-evaluated its unchanged pipeline, load(%s) in %s gives %s, the keep returned %r" % (store, pth, label, (lv[2] if lv and lv[0] == "ok" else lv and lv[1:3]), val),
+                            case, mechanism="interleaved-path-not-recommitted")
+                return rep
+    if moved:
+        rep.nontriv(("c04i", gen.h(gen.render(p0)), store))
+    return rep
+
+
 def run(tier, seed):
     rep = core.Report("C04")
     rep.rule = (
         "random programs (paths of 1-4 segments with shared directories, literal / module-variable / pathlib paths, tuple and str results) with 6-10 step edit histories on memory, local, local+cache and "
         "DBFS(fake); edit matrix subset; path-shape programs (concatenation-ambiguous names, shared directories, 1-4 segments, re-keep with changed code, paths dropped by an edit). After each step every path kept "
-        "so far is loaded in the same and in a fresh process and, for str results on file stores, read from the data directory. distinct_nontrivial = distinct cases with a store hit."
+        "so far is loaded in the same and in a fresh process; interleaved sessions (A evaluates, another process evaluates an edited version, A evaluates again) "
+        " and, for str results on file stores, read from the data directory. distinct_nontrivial = distinct cases with a store hit."
     )
     cases = build_cases(tier, seed)
     e1run.run_cases(cases, "C04", ["paths"], rep)
+    # interleaved sessions of two processes on one store
+    rng = core.rng_for(seed, "c04i")
+    progsi = [progs.base_program("c4i0"), progs.base_program("c4i1", layout="one", entry_data=True)]
+    while len(progsi) < (6 if tier == "quick" else 40):
+        q = progs.random_program(rng, "c4i%d" % len(progsi))
+        from vp import gen as _g
+
+        if len(_g.kept_nodes(q)) >= 2:
+            progsi.append(q)
+    jobs = [(q, st, i) for i, q in enumerate(progsi) for st in ("local", "local_lru", "dbfs")]
+    for j, r in zip(jobs, core.fork_map(interleaved_job, jobs, timeout=1800)):
+        if isinstance(r, core.JobFailed):
+            rep.inconclusive.append("interleaved job: %r" % (r,))
+        else:
+            rep.merge(r)
     rep.sample({"case": cases[0]["name"], "history": cases[0]["history"][:5]})
     if rep.counters.get("path_loads_checked", 0) == 0:
         rep.inconclusive.append("no path load was observed")
@@ -39,6 +116,10 @@ def replay(payload):
     from vp import e1
 
     rep = core.Report("C04")
+    if payload["case"].get("interleaved"):
+        c = payload["case"]
+        rep.merge(interleaved_job((c["program"], c["store"], c["idx"])))
+        return rep
     case = payload["case"]["case"]
     obs = e1.run_case(case)
     if obs["failed"]:
